@@ -503,6 +503,9 @@ def Replay(path):
     for r in recs:
       if r['id'] in bad and r['k'] == kind:
         out += _StringSignatures(r, bad[r['id']], unit_bad)
+  shutil.rmtree(os.path.join(common.BUILD, 'trace',
+                             'c10replay_%d' % os.getpid()),
+                ignore_errors=True)
   if errors:
     print('MACHINERY-FAILURE property=%s %s' % (PROP, errors[0][2][-1500:]))
     return 2
